@@ -78,9 +78,12 @@ def run_case(rp, op):
         return with_clock(ck, lambda: p.wait(state=req, timeout=(to * Clock.TICK) if to else None))
     if kind == 'wait_tasks':
         tm = stubs.make_tmgr(rp)
-        ts = [stubs.make_task(rp, tm, 'task.%06d' % i) for i in range(len(op['trajs']))]
-        ck = Clock(ts, op['trajs'], limit)
-        uids = [t.uid for t in ts]
+        # (`same`: the request names an entity more than once - entry k of the request is entity same[k])
+        same = op.get('same') or list(range(len(op['trajs'])))
+        ents = sorted(set(same))
+        ts = [stubs.make_task(rp, tm, 'task.%06d' % i) for i in ents]
+        ck = Clock(ts, [op['trajs'][same.index(i)] for i in ents], limit)
+        uids = [ts[ents.index(i)].uid for i in same]
         if op.get('one') and len(uids) == 1:
             # a single uid given as a string: the answer is that task's state, not a list
             r = with_clock(ck, lambda: tm.wait_tasks(uids=uids[0], state=req, timeout=(to * Clock.TICK) if to else None))
@@ -89,9 +92,11 @@ def run_case(rp, op):
     if kind == 'wait_pilots':
         pm = c14.make_pmgr(rp)
         pm._rep = rpload.NullLog()
-        ps = [c14.make_pilot(rp, pm, 'pilot.%04d' % i, 'NEW') for i in range(len(op['trajs']))]
-        ck = Clock(ps, op['trajs'], limit)
-        uids = [p.uid for p in ps]
+        same = op.get('same') or list(range(len(op['trajs'])))
+        ents = sorted(set(same))
+        ps = [c14.make_pilot(rp, pm, 'pilot.%04d' % i, 'NEW') for i in ents]
+        ck = Clock(ps, [op['trajs'][same.index(i)] for i in ents], limit)
+        uids = [ps[ents.index(i)].uid for i in same]
         if op.get('one') and len(uids) == 1:
             r = with_clock(ck, lambda: pm.wait_pilots(uids=uids[0], state=req, timeout=(to * Clock.TICK) if to else None))
             return r if r == 'spin' else [r[0], [r[1]] if not isinstance(r[1], list) else r[1]]
@@ -223,6 +228,12 @@ def run(ctx):
                         'trajs': [reachable_traj(rng, sts, FIN, 7) for _ in range(rng.choice([1, 1, 2, 3, 4]))]})
             if len(ops[-1]['trajs']) == 1 and rng.random() < 0.6:
                 ops[-1]['one'] = True
+            elif rng.random() < 0.15:
+                # the list of uids names an entity twice: one answer per entry, the same for both
+                trs = ops[-1]['trajs']
+                k = rng.randrange(len(trs))
+                ops[-1]['same'] = list(range(len(trs))) + [k]
+                ops[-1]['trajs'] = trs + [list(trs[k])]
     impl = []
     dist = {}
     for op in ops:
